@@ -17,8 +17,54 @@ def main(tier):
     cfgs = ["C16_quick", "C16_bin"] if tier == "quick" else ["C16_quick", "C16_bin", "C16_deep"]
     for c in cfgs:
         sc.explore(chk, c, variants=("as_is", "onebyte", "maxread", "intr", "mmap"), timeout=3000)
+    multiline_part(chk, tier)
     chk.exhaustive = True
     return chk.finish()
+
+
+def multiline_part(chk, tier):
+    """Stop / sink error at every delivered event of the multi-line strategy (reference: GrepModelML)."""
+    import json
+    import regexrender as rr
+    from checks import c13
+    res = vlib.tlc("regex/MCGrepML", "C16_ml", workers=12, timeout=3600)
+    if res.rc != 0:
+        raise vlib.ToolError("TLC failed on C16_ml:\n" + res.tail(40))
+    chk.add_tlc(res)
+    recs = [r for r in res.emits() if r["scn"]["stopAt"] or r["scn"]["errAt"]]
+    if tier == "quick":
+        recs = [r for i, r in enumerate(recs) if i % 3 == vlib.seed() % 3]
+    jobs = [c13.to_job(r, "slice" if i % 2 else "reader", {"fallback": 1}) for i, r in enumerate(recs)]
+    obs = vlib.run_driver("replay_search", jobs, parallel=12, timeout=3600)
+    chk.evaluations += len(jobs)
+    vlib.log("[C16] C16_ml: %d multi-line stop/error scenarios" % len(recs))
+    for r, j, o in zip(recs, jobs, obs):
+        inp = bytes(j["scn"]["inp"])
+        ref = [sc.ev_key(e) for e in c13.expand(r["ref"], inp) if e["k"] != "finish"]
+        raw = [e for e in o["out"] if e["k"] != "finish"]
+        fin = [e for e in o["out"] if e["k"] == "finish"]
+        got = [sc.ev_key(e) for e in c13.expand(raw, inp)]
+        k = r["scn"]["stopAt"] or r["scn"]["errAt"]
+        why = None
+        if o["result"] == "panic":
+            why = "panic: " + o.get("err", "")[:200]
+        elif got != ref[:len(got)]:
+            why = "delivered events are not a prefix of the reference stream"
+        elif len(raw) > k:
+            why = "events delivered after the consumer's verdict at event %d" % k
+        elif r["scn"]["errAt"] and len(raw) == k and (o["result"] != "err_sink" or fin):
+            why = "sink error not returned, or finish delivered after it (result %s)" % o["result"]
+        elif r["scn"]["stopAt"] and (o["result"] != "ok" or len(fin) != 1):
+            why = "after a stop: result %s, finish delivered %d times" % (o["result"], len(fin))
+        elif len(raw) < k and got != ref:
+            why = "search ended before the verdict index without delivering the whole reference stream"
+        if why:
+            sig = c13.mech(r, "ml")
+            chk.violation(sig, {"why": why, "scenario": j, "reference": r["ref"], "observed": o, "driver": "replay_search", "ml": True})
+        else:
+            chk.validated += 1
+            if len(ref) >= 3:
+                chk.nontrivial_case(json.dumps([r["scn"]["u"], r["scn"]["o"], r["scn"]["cfg"], r["scn"]["inp"], r["scn"]["stopAt"], r["scn"]["errAt"]], sort_keys=True))
 
 
 def replay(path):
